@@ -1,7 +1,7 @@
 #!/usr/bin/env python3
 """Confirms and evaluates one independently written breaking change.
 
-usage: tools/seed_eval.py <Cxx> <out_dir> <bugN> [--checks C01,C02] [--no-suite]
+usage: tools/seed_eval.py <Cxx> <out_dir> <bugN> [--checks=C01,C02] [--no-suite] [--as=bugM]
 
 1. in the scratch worktree /tmp/wt_$MUT_SLOT (unchanged HEAD): place the demo, run it
    -> must pass;
@@ -23,7 +23,10 @@ def main():
     prop, out_dir, bug = sys.argv[1:4]
     checks = [prop]
     suite = True
+    keep_as = bug
     for a in sys.argv[4:]:
+        if a.startswith('--as'):
+            keep_as = a.split('=')[1]
         if a.startswith('--checks'):
             checks = a.split('=')[1].split(',')
         if a == '--no-suite':
@@ -76,7 +79,7 @@ def main():
     meta_all = json.load(open(f'{out_dir}/meta.json')) if os.path.exists(f'{out_dir}/meta.json') else []
     meta = next((x for x in meta_all if x.get('id') == bug), {})
     if confirmed:
-        dst = f'/verif/seeded/{prop}-{bug}'
+        dst = f'/verif/seeded/{prop}-{keep_as}'
         os.makedirs(dst, exist_ok=True)
         shutil.copy(diff, f'{dst}/patch.diff')
         shutil.copy(demo, f'{dst}/{os.path.basename(place)}')
